@@ -218,7 +218,7 @@ func TestVerifC04Api(t *testing.T) {
 				break
 			}
 			full = cut(full)
-			if prop == "C12" {
+			{
 				// completeness: every message of every stored batch that is addressed to the reader is served
 				served := map[string]bool{}
 				for _, m := range full {
@@ -227,13 +227,13 @@ func TestVerifC04Api(t *testing.T) {
 				for id, batch := range ref {
 					for _, om := range batch {
 						if om.for_[s.Num] && !served[fmt.Sprintf("%d.%d", id, om.reply)] {
-							res.report(sigs, "C12", "a message addressed to a session is not served to it by GET messages", fmt.Sprintf("history %s, readers in the order %v, session %s: %d.%d %q is addressed to it in the stored batch", j.h.name, j.order, who, id-robust.MessageOffset, om.reply, om.data), seq)
+							res.report(sigs, prop, "a message addressed to a session is not served to it by GET messages", fmt.Sprintf("history %s, readers in the order %v, session %s: %d.%d %q is addressed to it in the stored batch", j.h.name, j.order, who, id-robust.MessageOffset, om.reply, om.data), seq)
 						}
 					}
 				}
 				for _, m := range full {
 					if !addressed(m, s.Num) {
-						res.report(sigs, "C12", "GET messages serves a message to a session it is not addressed to", fmt.Sprintf("history %s, session %s reading from the start: %d.%d %q", j.h.name, who, m.Id.Id-robust.MessageOffset, m.Id.Reply, m.Data), seq)
+						res.report(sigs, prop, "GET messages serves a message to a session it is not addressed to", fmt.Sprintf("history %s, session %s reading from the start: %d.%d %q", j.h.name, who, m.Id.Id-robust.MessageOffset, m.Id.Reply, m.Data), seq)
 					}
 				}
 			}
